@@ -1779,7 +1779,12 @@
   [xs]
   (def ret @[])
   (def seen @{})
-  (each x xs (if (in seen x) nil (do (put seen x true) (array/push ret x))))
+  (var seen-nil false)
+  (each x xs
+    (if (= nil x)
+      # nil cannot be a table key
+      (unless seen-nil (set seen-nil true) (array/push ret x))
+      (if (in seen x) nil (do (put seen x true) (array/push ret x)))))
   ret)
 
 (defn flatten-into
